@@ -317,6 +317,8 @@ class Schema(dict, metaclass=LogicalMeta):
                 f"Attempt to set immutable attribute: [{repr(field.attname)}]"
             )
 
+        # an assignment may be the first use of the class (custom __init__, no_parse)
+        self.__parser__.resolve_forward_refs()
         context = self.__parser__.make_context(force_error=True)
         value = field.parse_value(value, context=context)
         if unprovided(value):
